@@ -212,7 +212,7 @@ struct KnownFinding {
 }
 
 fn load_known() -> Vec<KnownFinding> {
-    let p = verif_dir().join("known_findings.json");
+    let p = std::env::var("VERIF_KNOWN").map(PathBuf::from).unwrap_or_else(|_| PathBuf::from("/verif/known_findings.json"));
     match std::fs::read_to_string(&p) {
         Ok(s) => serde_json::from_str::<KnownFile>(&s).map(|k| k.findings).unwrap_or_else(|e| {
             eprintln!("HARNESS-ERROR cannot parse {}: {}", p.display(), e);
